@@ -762,3 +762,169 @@ def stale_position_rule(ctx, rid, scope, minimum):
     if n < minimum:
         from facts import AnalysisBroken
         raise AnalysisBroken('%s: only %d uses of searched positions found' % (rid, n))
+
+
+_STR_SHRINK = ('operator=', 'erase', 'resize', 'clear', 'assign', 'swap', 'pop_back')
+
+
+def _minval(fn, x, depth=0):
+    """a lower bound of a non-negative integer expression (constants, ?:, +, *, casts), None if unknown"""
+    if isinstance(x, tuple):
+        return x[1]
+    x = fn.strip(x, casts=True)
+    v = fn.nodes.get(x, {})
+    if fn.cval(x) is not None:
+        return fn.cval(x)
+    if depth > 6:
+        return None
+    if v.get('k') == 'ConditionalOperator':
+        a, b = _minval(fn, v['then'], depth + 1), _minval(fn, v['else'], depth + 1)
+        return None if a is None or b is None else min(a, b)
+    if v.get('k') == 'BinaryOperator' and v.get('op') in ('+', '*'):
+        a, b = _minval(fn, v['lhs'], depth + 1), _minval(fn, v['rhs'], depth + 1)
+        if a is None or b is None or a < 0 or b < 0:
+            return None
+        return a + b if v['op'] == '+' else a * b
+    return None
+
+
+def substr_bound_rule(ctx, rid, scope, minimum):
+    """s.substr(k, ...) with a constant start k > 0 throws std::out_of_range when s is shorter than k.  For every such call the
+    length that is known for s on each path (from tests of size()/length()/empty(), of a local copy of the size, of a
+    prefix comparison s.substr(0, n) == "literal" or of a character s[i] == c) must reach k.  A call whose string is never
+    tested on the way is reported as not decided; a call whose string is tested but only for a shorter length is a
+    violation (the test shows the length matters and is too weak)."""
+    import re
+    import facts
+    fb = ctx.fb
+    seen = set()
+    n = 0
+    for fn in fb.functions:
+        if not scope(fn) or not fn.blocks or (fn.name, fn.sig) in seen:
+            continue
+        seen.add((fn.name, fn.sig))
+        targets = []
+        for c in fn.all('CXXMemberCallExpr'):
+            v = fn.nodes[c]
+            if (v.get('callee') or '').split('::')[-1] != 'substr' or not (v.get('cls') or '').startswith('std::basic_string') or \
+                    not v.get('args') or 'obj' not in v:
+                continue
+            k = fn.cval(v['args'][0])
+            if k is None or k <= 0:
+                continue
+            targets.append((c, fn.key(v['obj']), k))
+        for c, sk, k in targets:
+            n += 1
+            ctx.touch(fn)
+            if not re.match(r'^[\w.*]+$', sk):
+                ctx.ob(rid, fn, c, False, '%s.substr(%d...)' % (sk, k), 'the string is a temporary (not decided here)', status='unclassified')
+                continue
+            sizes = ('%s.size()' % sk, '%s.length()' % sk)
+            assigns = {}
+            for nid, d, rhs, op, lhs in fn.assignments():
+                if d and ':' in d:
+                    assigns[nid] = (d.split(':')[-1], fn.key(fn.strip(rhs, casts=True)) if rhs is not None else None)
+            mods = set()
+            for m, mv in fn.nodes.items():
+                if mv['k'] == 'CXXMemberCallExpr' and 'obj' in mv and fn.key(mv['obj']) == sk and \
+                        (mv.get('callee') or '').split('::')[-1] in _STR_SHRINK:
+                    mods.add(m)
+                if mv['k'] == 'CXXOperatorCallExpr' and mv.get('op') == '=' and mv.get('args') and fn.key(mv['args'][0]) == sk:
+                    mods.add(m)
+            res = {'lb': None, 'tested': False}
+            # positions found in sk: local -> start of the search (a hit at position p >= start means size > p)
+            founds = {}
+            for nid, d, rhs, op, lhs in fn.assignments():
+                if d and ':' in d and rhs is not None:
+                    r = fn.nodes[fn.strip(rhs, casts=True)]
+                    if r.get('k') == 'CXXMemberCallExpr' and 'obj' in r and fn.key(r['obj']) == sk and \
+                            (r.get('callee') or '').split('::')[-1] in _FIND:
+                        frm = fn.cval(r['args'][1]) if len(r.get('args', [])) > 1 else 0
+                        founds[nid] = (d.split(':')[-1], frm if frm is not None else 0)
+
+            def on_elem(user, e, path):
+                lb, al, tested = user
+                if e in assigns:
+                    nm, rk = assigns[e]
+                    al = frozenset(x for x in al if x != nm and not (isinstance(x, tuple) and x[0] == nm))
+                    if rk in sizes:
+                        al = frozenset(set(al) | {nm})
+                    if e in founds:
+                        al = frozenset(set(al) | {founds[e]})
+                if e in mods and e != c:
+                    lb, al = 0, frozenset()
+                if e == c:
+                    res['lb'] = lb if res['lb'] is None else min(res['lb'], lb)
+                    res['tested'] = res['tested'] or tested
+                    return None
+                return (lb, al, tested)
+
+            def bound_of(a, lb, al):
+                """(new lower bound implied by the atom, whether it is a test of the length of sk)"""
+                xs = set(sizes) | set(x for x in al if not isinstance(x, tuple))
+                fpos = dict(x for x in al if isinstance(x, tuple))
+                if a[0] == 'cmp':
+                    lk0 = fn.key(a[1])
+                    rk0 = ('#%d' % a[3][1]) if isinstance(a[3], tuple) else fn.key(a[3])
+                    if lk0 in fpos and a[2] == '!=' and rk0 == '#18446744073709551615':
+                        return fpos[lk0] + 1, True
+                if a[0] == 'b':
+                    key, pol = a[1], a[2]
+                    if key == '%s.empty()' % sk:
+                        return (1 if not pol else 0), True
+                    m = re.match(r'^std::operator==\(%s\.substr\(#0,#(\d+)\),"(.*)"\)$' % re.escape(sk), key)
+                    if m and pol:
+                        return min(int(m.group(1)), len(m.group(2))), True
+                    return 0, False
+                l, op, r = a[1], a[2], a[3]
+                lk = fn.key(l)
+                rk = ('#%d' % r[1]) if isinstance(r, tuple) else fn.key(r)
+                m = re.match(r'^%s\[#(\d+)\]$' % re.escape(sk), lk)
+                if m and op == '==' and rk.startswith('#') and rk != '#0':
+                    return int(m.group(1)) + 1, True
+                m = re.match(r'^%s\.substr\(#0,#(\d+)\)$' % re.escape(sk), lk)
+                if m and op == '==' and rk.startswith('"'):
+                    return min(int(m.group(1)), len(rk) - 2), True
+                if lk in xs:
+                    mv = _minval(fn, r)
+                elif rk in xs:
+                    mv = _minval(fn, l)
+                    op = {'<': '>', '>': '<', '<=': '>=', '>=': '<=', '==': '==', '!=': '!='}[op]
+                else:
+                    return 0, False
+                if mv is None:
+                    return 0, True
+                if op == '>=':
+                    return mv, True
+                if op == '>':
+                    return mv + 1, True
+                if op == '==':
+                    return mv, True
+                if op == '!=' and mv == lb:
+                    return lb + 1, True
+                return 0, True
+
+            def on_edge(user, b, j, dnf):
+                lb, al, tested = user
+                best = None
+                for conj in dnf:
+                    cl = lb
+                    for a in conj:
+                        nb, t = bound_of(a, cl, al)
+                        tested = tested or t
+                        cl = max(cl, nb)
+                    best = cl if best is None else min(best, cl)
+                return (best if best is not None else lb, al, tested)
+            facts.Explorer(fn, on_elem=on_elem, on_edge=on_edge).run(fn.entry, 0, (0, frozenset(), False))
+            if res['lb'] is None:
+                ctx.ob(rid, fn, c, True, '%s.substr(%d...)' % (sk, k), 'not reachable', nontrivial=False)
+            elif res['lb'] >= k:
+                ctx.ob(rid, fn, c, True, '%s.substr(%d...)' % (sk, k), 'at least %d characters on every path' % res['lb'])
+            elif not res['tested']:
+                ctx.ob(rid, fn, c, False, '%s.substr(%d...)' % (sk, k), 'the length of %s is not tested in this function (caller contract, not decided here)' % sk,
+                       status='unclassified')
+            else:
+                ctx.ob(rid, fn, c, False, '%s.substr(%d...)' % (sk, k), 'the tests on the way only guarantee %d character(s)' % res['lb'])
+    if n < minimum:
+        from facts import AnalysisBroken
+        raise AnalysisBroken('%s: only %d substr calls with a constant start found' % (rid, n))
